@@ -8,7 +8,7 @@ use proptest::prelude::*;
 use serde::{Deserialize, Serialize};
 use std::path::{Path, PathBuf};
 
-pub const PATTERNS: [&str; 14] = [
+pub const PATTERNS: [&str; 17] = [
     "$ENV{LV_BRACES}.{}.log",
     "$ENV{LV_BRACES}/{}",
     "a.{}.log",
@@ -23,11 +23,17 @@ pub const PATTERNS: [&str; 14] = [
     "deep/er/x{}y.gz",
     "{}",
     "$ENV{LV_SET}{}/b.{}.zst",
+    // the index is in the file name as written and in a directory component only once the variable is expanded
+    "arch/{}.$ENV{LV_SLASH}.log",
+    "$ENV{LV_SLASH}.{}",
+    "x{}$ENV{LV_SLASH}/f.gz",
 ];
 
 pub fn lookup(name: &str) -> Option<String> {
     match name {
-        "LV_SET" => Some("envdir".to_string()),
+        // (read from the environment: a case may change it between two rolls)
+        "LV_SET" => std::env::var("LV_SET").ok(),
+        "LV_SLASH" => Some("bill/api".to_string()),
         // a value that itself contains the index placeholder is inserted verbatim
         "LV_BRACES" => Some("b{}r".to_string()),
         _ => None,
@@ -63,6 +69,10 @@ pub struct Case {
     /// remounted volume): the roller has to set them up again
     #[serde(default)]
     pub wipe_before: Vec<u8>,
+    /// before this roll (index) the variable the pattern refers to gets another value: from then on the archive names
+    /// are the ones the pattern resolves to NOW, and the archives under the earlier names are nobody's business
+    #[serde(default)]
+    pub env_switch_before: Option<u8>,
 }
 
 /// `\xHH` escapes in a generated name stand for raw bytes (file names that are not valid UTF-8)
@@ -114,9 +124,9 @@ pub fn strategy() -> impl Strategy<Value = Case> {
         prop::collection::vec((any::<u16>(), content()), 0..=3),
         prop::collection::vec(content(), 1..=10),
         any::<u16>(),
-        (prop::bool::weighted(0.2), prop::option::weighted(0.08, (any::<u64>(), 70_000u32..400_000)), prop::bool::weighted(0.3), prop_oneof![3 => Just(vec![]), 1 => prop::collection::vec(1u8..8, 1..=2)]),
+        (prop::bool::weighted(0.2), prop::option::weighted(0.08, (any::<u64>(), 70_000u32..400_000)), prop::bool::weighted(0.3), prop_oneof![3 => Just(vec![]), 1 => prop::collection::vec(1u8..8, 1..=2)], prop::option::weighted(0.3, 1u8..6)),
     )
-        .prop_map(|(delete_roller, count, base_kind, pat, init_kind, init, by, rolls, act, (cross_device, big, leftovers, wipe_before))| {
+        .prop_map(|(delete_roller, count, base_kind, pat, init_kind, init, by, rolls, act, (cross_device, big, leftovers, wipe_before, env_switch_before))| {
             let base: u32 = match base_kind {
                 0 => 0,
                 1 => 1,
@@ -181,6 +191,7 @@ pub fn strategy() -> impl Strategy<Value = Case> {
                 big,
                 leftovers,
                 wipe_before,
+                env_switch_before,
             }
         })
 }
@@ -194,7 +205,9 @@ fn write_file(p: &Path, b: &[u8]) {
 
 pub fn check(tmp: &Path, case: &Case, obs: &mut Obs) -> CaseResult {
     let dir = scratch(tmp, "c07");
+    std::env::set_var("LV_SET", "envdir");
     let r = check_in(&dir, case, obs);
+    std::env::set_var("LV_SET", "envdir");
     if case.cross_device {
         if let Some(a) = other_fs_dir(&dir) {
             let _ = std::fs::remove_dir_all(a);
@@ -257,12 +270,19 @@ fn check_in(dir: &Path, case: &Case, obs: &mut Obs) -> CaseResult {
     let mut exact = gap_free_start;
     let mut evicted = false;
     let mut wiped = false;
+    let mut switched = false;
     let big_content = case.big.map(|(seed, len)| incompressible(seed, len as usize));
     for (ri, content) in case.rolls.iter().enumerate() {
         let content = match (&big_content, ri) {
             (Some(b), 0) => b,
             _ => content,
         };
+        if case.env_switch_before.map(|k| k as usize % case.rolls.len()) == Some(ri) && ri > 0 && case.pattern.contains("$ENV{LV_SET}") && !case.delete_roller {
+            std::env::set_var("LV_SET", "envdir-tuesday");
+            // nothing exists under the new names yet
+            exact = true;
+            switched = true;
+        }
         if case.wipe_before.contains(&(ri as u8)) && !case.delete_roller {
             // the top-level directory of every archive name that lives in a sub-directory goes away
             let mut gone = false;
@@ -392,6 +412,7 @@ fn check_in(dir: &Path, case: &Case, obs: &mut Obs) -> CaseResult {
     obs.class_if(case.base as u64 + case.count as u64 > u32::MAX as u64, "base+count-overflows-u32");
     obs.class_if(case.delete_roller, "delete-roller");
     obs.class_if(wiped, "archive-directory-cleared-between-rolls");
+    obs.class_if(switched, "variable-changes-value-between-rolls");
     obs.class_if(case.big.is_some(), "rolled-file>=70kB-incompressible");
     obs.class_if(case.active.contains("\\x"), "rolled-file-name-not-utf8");
     #[cfg(feature = "bg")]
@@ -444,7 +465,7 @@ pub fn run(run: &Run) {
         // one roller through 400 successive rolls (more than any 8-bit bookkeeping can count)
         for (count, pattern) in [(3u32, "a.{}.log"), (5, "arch/{}/a.log.gz")] {
             let rolls: Vec<Vec<u8>> = (0..400u32).map(|i| format!("roll {}\n", i).into_bytes()).collect();
-            run.eval_one("rolls", &Case { delete_roller: false, base: 1, count, pattern: pattern.to_string(), initial: vec![], bystanders: vec![("other.txt".into(), b"keep".to_vec())], bystander_dirs: vec![], active: "active.log".into(), rolls, cross_device: false, big: None, leftovers: false, wipe_before: vec![120, 250] }, &f);
+            run.eval_one("rolls", &Case { delete_roller: false, base: 1, count, pattern: pattern.to_string(), initial: vec![], bystanders: vec![("other.txt".into(), b"keep".to_vec())], bystander_dirs: vec![], active: "active.log".into(), rolls, cross_device: false, big: None, leftovers: false, wipe_before: vec![120, 250], env_switch_before: None }, &f);
         }
     }
     run.note(format!("build: {}", if cfg!(feature = "bg") { "background_rotation" } else { "foreground rotation" }));
@@ -466,7 +487,7 @@ pub fn replay(part: &str, case: serde_json::Value) -> Option<CaseResult> {
 pub fn meta() -> EvidenceMeta {
     EvidenceMeta {
         level: "exploration",
-        rule: "cases = roller configuration (base in {0,1,3,9,99,u32::MAX-count,u32::MAX-count+1}, count 0-6, 12 patterns: index in file name / directory component / twice, non-ASCII, spaces, $ENV{set}/$ENV{unset} references, .gz/.zst) x initial directory (empty, contiguous prefix, gaps, archives outside the window, bystander files/dirs) x 1-10 successive Roll::roll calls (the archive directories may be cleared away between two of them) on freshly written files (empty, small, ~10 kB, 70-400 kB incompressible; file and directory names that are not valid UTF-8; in the background-rotation build temp-file look-alikes <stem>.<unix second> for the coming seconds lie in the directory); oracle over full recursive snapshots before/after each roll: rolled path gone, index base holds the rolled bytes (decompressed with flate2/zstd when requested), exact shift base+j <- base+j-1 for gap-free windows, oldest evicted only when the window was full, with gaps the charitable ordered-list relation, every file outside the managed names byte-identical and no new file elsewhere; count 0 / delete roller: only the rolled file disappears. non-trivial = eviction reached with count >= 3, or initial gaps, or index in a directory component, or compression".into(),
+        rule: "cases = roller configuration (base in {0,1,3,9,99,u32::MAX-count,u32::MAX-count+1}, count 0-6, 17 patterns (incl. an index that lands in a directory component only after the variable is expanded; the variable's value may change between two rolls): index in file name / directory component / twice, non-ASCII, spaces, $ENV{set}/$ENV{unset} references, .gz/.zst) x initial directory (empty, contiguous prefix, gaps, archives outside the window, bystander files/dirs) x 1-10 successive Roll::roll calls (the archive directories may be cleared away between two of them) on freshly written files (empty, small, ~10 kB, 70-400 kB incompressible; file and directory names that are not valid UTF-8; in the background-rotation build temp-file look-alikes <stem>.<unix second> for the coming seconds lie in the directory); oracle over full recursive snapshots before/after each roll: rolled path gone, index base holds the rolled bytes (decompressed with flate2/zstd when requested), exact shift base+j <- base+j-1 for gap-free windows, oldest evicted only when the window was full, with gaps the charitable ordered-list relation, every file outside the managed names byte-identical and no new file elsewhere; count 0 / delete roller: only the rolled file disappears. non-trivial = eviction reached with count >= 3, or initial gaps, or index in a directory component, or compression".into(),
         assumptions: vec!["archive names computed with the harness's own single-pass $ENV expander".into()],
         mutants_caught: vec![],
     }
